@@ -140,9 +140,9 @@ namespace chaiscript {
 
           for (size_t i = 0; i < num_children; ++i) {
             const auto &child = *node->children[i];
-            if ((child.identifier != AST_Node_Type::Id && child.identifier != AST_Node_Type::Constant
-                 && child.identifier != AST_Node_Type::Noop)
-                || i == num_children - 1) {
+            // only statements whose evaluation can neither fail nor have an effect are dropped; a bare
+            // identifier is not one of them (looking up an unknown name raises an error)
+            if ((child.identifier != AST_Node_Type::Constant && child.identifier != AST_Node_Type::Noop) || i == num_children - 1) {
               keepers.push_back(i);
             }
           }
